@@ -23,7 +23,8 @@ Qed.
 
 (* ---- what the printer puts after a command, a pipeline, an and-or list ---- *)
 Definition za (z : str) : Prop :=
-  z = [] \/ z = [38] \/ (exists x, z = 59 :: 32 :: x) \/ (exists x, z = 38 :: 32 :: x).
+  z = [] \/ z = [38] \/ (exists x, z = 59 :: 32 :: x) \/ (exists x, z = 38 :: 32 :: x)
+  \/ (exists x, z = 41 :: x) \/ (exists x, z = 38 :: 41 :: x).
 Definition zp (z : str) : Prop :=
   za z \/ (exists x, z = 32 :: 38 :: 38 :: 32 :: x) \/ (exists x, z = 32 :: 124 :: 124 :: 32 :: x).
 Definition zc (z : str) : Prop := zp z \/ (exists x, z = 32 :: 124 :: 32 :: x).
@@ -31,8 +32,9 @@ Definition zc (z : str) : Prop := zp z \/ (exists x, z = 32 :: 124 :: 32 :: x).
 Lemma zc_follow z : zc z -> follow z /\ cmd_end z.
 Proof.
   unfold zc, zp, za, follow, cmd_end.
-  intros [[[->|[->|[[x ->]|[x ->]]]]|[[x ->]|[x ->]]]|[x ->]]; rewrite ?sbc_blank;
-    try rewrite skip_blanks_and_comment_id by reflexivity; cbn; split; eauto 8.
+  intros [[[->|[->|[[x ->]|[[x ->]|[[x ->]|[x ->]]]]]]|[[x ->]|[x ->]]]|[x ->]]; rewrite ?sbc_blank;
+    try rewrite skip_blanks_and_comment_id by (try reflexivity; apply nolc_cons; reflexivity);
+    cbn; split; eauto 8.
   all: try (right; right; eexists _, _; split; [reflexivity | reflexivity]).
 Qed.
 
@@ -89,6 +91,21 @@ Proof.
   rewrite skip_lc_nonbslash by reflexivity. reflexivity.
 Qed.
 
+Lemma tok_rparen i f x :
+  lex_token i f (41 :: x) = Ok (mkToken [] (TOp OpCloseParen) (41 :: x), x).
+Proof.
+  apply op_token; [apply skip_blanks_and_comment_id; try reflexivity; apply nolc_cons; reflexivity|].
+  unfold lex_operator. rewrite skip_lc_nonbslash by reflexivity. reflexivity.
+Qed.
+
+Lemma tok_and_rparen i f x :
+  lex_token i f (38 :: 41 :: x) = Ok (mkToken [] (TOp OpAnd) (38 :: 41 :: x), 41 :: x).
+Proof.
+  apply op_token; [apply skip_blanks_and_comment_id; reflexivity|].
+  unfold lex_operator. rewrite skip_lc_nonbslash by reflexivity. cbn -[alt]. unfold alt.
+  rewrite skip_lc_nonbslash by reflexivity. reflexivity.
+Qed.
+
 Lemma tok_end i f : (2 <= f)%nat -> lex_token i f [] = Ok (mkToken [] TEnd [], []).
 Proof.
   intros Hf. destruct f as [|[|f]]; try lia.
@@ -133,7 +150,115 @@ Proof.
   rewrite Hc. rewrite (tok_bang _ (S (S f)) x pre Hl ltac:(lia)). reflexivity.
 Qed.
 
-(* ---- commands: simple commands only ---- *)
+(* ---- the tokens that open and close a grouping or a subshell ---- *)
+Lemma tok_lbrace i f x pre :
+  is_lead pre -> (4 <= f)%nat ->
+  lex_token i f (pre ++ 123 :: 32 :: x)
+  = Ok (mkToken [Unquoted (Literal 123)] (TToken (Some KOpenBrace)) (123 :: 32 :: x), 32 :: x).
+Proof.
+  intros Hl Hf.
+  assert (E : lex_token i f (123 :: 32 :: x)
+              = Ok (mkToken [Unquoted (Literal 123)] (TToken (Some KOpenBrace)) (123 :: 32 :: x), 32 :: x)).
+  { unfold lex_token. rewrite skip_blanks_and_comment_id by reflexivity.
+    assert (Eo : lex_operator (123 :: 32 :: x) = None).
+    { unfold lex_operator. rewrite skip_lc_nonbslash by reflexivity. reflexivity. }
+    rewrite Eo. unfold bind.
+    pose proof (lex_units_plain i [123] (32 :: x) f eq_refl (nolc_cons 32 x eq_refl) eq_refl ltac:(cbn; lia)) as L.
+    cbn [app] in L. rewrite L. reflexivity. }
+  destruct Hl as [-> | ->]; cbn [app]; rewrite ?lex_token_blank; exact E.
+Qed.
+
+Lemma tok_rbrace i f x pre :
+  is_lead pre -> nolc x -> stops DToken x -> (4 <= f)%nat ->
+  lex_token i f (pre ++ 125 :: x)
+  = Ok (mkToken [Unquoted (Literal 125)] (TToken (Some KCloseBrace)) (125 :: x), x).
+Proof.
+  intros Hl Hn Hs Hf.
+  assert (E : lex_token i f (125 :: x)
+              = Ok (mkToken [Unquoted (Literal 125)] (TToken (Some KCloseBrace)) (125 :: x), x)).
+  { unfold lex_token.
+    rewrite skip_blanks_and_comment_id by (try reflexivity; apply nolc_cons; reflexivity).
+    assert (Eo : lex_operator (125 :: x) = None).
+    { unfold lex_operator. rewrite skip_lc_nonbslash by reflexivity. reflexivity. }
+    rewrite Eo. unfold bind.
+    pose proof (lex_units_plain i [125] x f eq_refl Hn Hs ltac:(cbn; lia)) as L.
+    cbn [app] in L. rewrite L. reflexivity. }
+  destruct Hl as [-> | ->]; cbn [app]; rewrite ?lex_token_blank; exact E.
+Qed.
+
+(* the reserved words that follow a list printed in the alternate form *)
+Definition closer (k : keyword) (cs : str) : Prop :=
+  (k = KCloseBrace /\ cs = [125]) \/ (k = KDo /\ cs = [100; 111]) \/
+  (k = KDone /\ cs = [100; 111; 110; 101]).
+
+Lemma tok_closer i f k cs x pre :
+  closer k cs -> is_lead pre -> nolc x -> stops DToken x -> (8 <= f)%nat ->
+  lex_token i f (pre ++ cs ++ x) = Ok (mkToken (wlits cs) (TToken (Some k)) (cs ++ x), x).
+Proof.
+  intros Hk Hl Hn Hs Hf.
+  assert (E : lex_token i f (cs ++ x) = Ok (mkToken (wlits cs) (TToken (Some k)) (cs ++ x), x)).
+  { destruct Hk as [[-> ->]|[[-> ->]|[-> ->]]]; cbn [app];
+      unfold lex_token;
+      rewrite skip_blanks_and_comment_id by (try reflexivity; apply nolc_cons; reflexivity);
+      match goal with |- context [lex_operator ?t] =>
+        assert (Eo : lex_operator t = None)
+          by (unfold lex_operator; rewrite skip_lc_nonbslash by reflexivity; reflexivity)
+      end; rewrite Eo; unfold bind.
+    - pose proof (lex_units_plain i [125] x f eq_refl Hn Hs ltac:(cbn; lia)) as L.
+      cbn [app] in L. rewrite L. reflexivity.
+    - pose proof (lex_units_plain i [100; 111] x f eq_refl Hn Hs ltac:(cbn; lia)) as L.
+      cbn [app] in L. rewrite L. reflexivity.
+    - pose proof (lex_units_plain i [100; 111; 110; 101] x f eq_refl Hn Hs ltac:(cbn; lia)) as L.
+      cbn [app] in L. rewrite L. reflexivity. }
+  destruct Hl as [-> | ->]; cbn [app]; rewrite ?lex_token_blank; exact E.
+Qed.
+
+Lemma tok_lparen i f x pre :
+  is_lead pre ->
+  lex_token i f (pre ++ 40 :: x) = Ok (mkToken [] (TOp OpOpenParen) (40 :: x), x).
+Proof.
+  intros Hl.
+  assert (E : lex_token i f (40 :: x) = Ok (mkToken [] (TOp OpOpenParen) (40 :: x), x)).
+  { apply op_token; [apply skip_blanks_and_comment_id; try reflexivity; apply nolc_cons; reflexivity|].
+    unfold lex_operator. rewrite skip_lc_nonbslash by reflexivity. reflexivity. }
+  destruct Hl as [-> | ->]; cbn [app]; rewrite ?lex_token_blank; exact E.
+Qed.
+
+(* no command starts at a closing parenthesis or brace: list.rs returns the
+   empty list there and consumes nothing *)
+Lemma closer_no_list s w id at_ r :
+  (forall f, (8 <= f)%nat -> tk2 f s = Ok (mkToken w id at_, r)) ->
+  id = TOp OpCloseParen \/ (exists k, id = TToken (Some k) /\ (k = KCloseBrace \/ k = KDo \/ k = KDone)) ->
+  forall f, (16 <= f)%nat -> p_list f s = Ok ([], s).
+Proof.
+  intros Ht Hid f Hf.
+  assert (Hr : forall g, (8 <= g)%nat -> p_redir (tk2 g) s = Ok (None, s)).
+  { intros g Hg. unfold p_redir, bind. rewrite (Ht g Hg).
+    destruct Hid as [-> | (k0 & -> & [->|[->| ->]])]; cbn [t_id t_word]; rewrite (Ht g Hg); reflexivity. }
+  assert (Hs : forall e, (9 <= e)%nat -> p_simple e None (mkBuilder [] [] []) s = Ok (None, s)).
+  { intros e He. destruct e as [|e]; [lia|]. rewrite p_simple_eq. cbv zeta. unfold bind.
+    rewrite (Hr e ltac:(lia)). rewrite (Ht e ltac:(lia)). destruct Hid as [-> | (k0 & -> & [->|[->| ->]])]; reflexivity. }
+  assert (Hc : forall e, (9 <= e)%nat -> p_compound e s = Ok (None, s)).
+  { intros e He. destruct e as [|e]; [lia|]. rewrite p_compound_eq. cbv zeta. unfold bind.
+    rewrite (Ht e ltac:(lia)). destruct Hid as [-> | (k0 & -> & [->|[->| ->]])]; reflexivity. }
+  assert (Hfc : forall d, (10 <= d)%nat -> p_full_compound d s = Ok (None, s)).
+  { intros d Hd. destruct d as [|d]; [lia|]. rewrite p_full_compound_eq. cbv zeta. unfold bind.
+    rewrite (Hc d ltac:(lia)). reflexivity. }
+  assert (Hcm : forall c, (11 <= c)%nat -> p_command c s = Ok (None, s)).
+  { intros c Hc'. destruct c as [|c]; [lia|]. rewrite p_command_eq. cbv zeta. unfold bind.
+    rewrite (Hs c ltac:(lia)). rewrite (Hfc c ltac:(lia)). rewrite (Ht c ltac:(lia)).
+    destruct Hid as [-> | (k0 & -> & [->|[->| ->]])]; reflexivity. }
+  assert (Hp : forall b, (12 <= b)%nat -> p_pipeline b s = Ok (None, s)).
+  { intros b Hb. destruct b as [|b]; [lia|]. rewrite p_pipeline_eq. cbv zeta. unfold bind.
+    rewrite (Hcm b ltac:(lia)). rewrite (Ht b ltac:(lia)). destruct Hid as [-> | (k0 & -> & [->|[->| ->]])]; reflexivity. }
+  assert (Ha : forall a, (13 <= a)%nat -> p_and_or a s = Ok (None, s)).
+  { intros a Ha'. destruct a as [|a]; [lia|]. rewrite p_and_or_eq. cbv zeta. unfold bind.
+    rewrite (Hp a ltac:(lia)). reflexivity. }
+  destruct f as [|f]; [lia|]. rewrite p_list_eq. cbv zeta. unfold bind.
+  rewrite (Ha f ltac:(lia)). reflexivity.
+Qed.
+
+(* ---- commands: simple commands ---- *)
 Definition cmd_first (c : command) : Prop :=
   match c with
   | CSimple a w rds => exists f s r, p_simple f None empty_b s = Ok (Some (a, w, rds), r)
@@ -186,7 +311,30 @@ Proof.
     eapply tk2_mono; [|exact Et | discriminate]. lia.
 Qed.
 
-(* ---- pipelines ---- *)
+(* ---- a class of commands that are read back from their printed text ---- *)
+Definition replays (P : command -> Prop) : Prop :=
+  forall c z pre, P c -> follow z -> cmd_end z -> is_lead pre ->
+  exists f0, forall f, (f0 <= f)%nat ->
+    p_command f (pre ++ print_command c ++ z) = Ok (Some c, z) /\
+    forall k, skip_newlines (tk2 f) (S k) (pre ++ print_command c ++ z) = Ok (pre ++ print_command c ++ z).
+
+Lemma cmd_good_replays : replays cmd_good.
+Proof. intros c z pre. apply command_replay. Qed.
+
+(* pipelines (not empty), and-or lists and items made of commands of a class *)
+Definition gpl (P : command -> Prop) (p : pipeline) : Prop :=
+  match p with Pipeline cs _ => cs <> [] /\ Forall P cs end.
+Definition gao (P : command -> Prop) (ao : and_or_list) : Prop :=
+  match ao with AndOrList p rest => gpl P p /\ Forall (fun x => gpl P (snd x)) rest end.
+Definition gitem (P : command -> Prop) (i : item) : Prop := match i with Item ao _ => gao P ao end.
+
+(* what follows a printed list: the end of the text or the closing parenthesis
+   of a subshell (plain form); " }" and something that ends a word (alternate
+   form, in which every item carries its separator) *)
+Definition zl (alt : bool) (zt : str) : Prop :=
+  if alt then exists k cs x, zt = 32 :: cs ++ x /\ closer k cs /\ nolc x /\ stops DToken x
+  else zt = [] \/ exists x, zt = 41 :: x.
+
 Lemma zp_zc z : zp z -> zc z. Proof. left. assumption. Qed.
 Lemma za_zp z : za z -> zp z. Proof. left. assumption. Qed.
 
@@ -194,11 +342,13 @@ Lemma za_zp z : za z -> zp z. Proof. left. assumption. Qed.
 Lemma zp_token z f : zp z -> (2 <= f)%nat ->
   exists t r, tk2 f z = Ok (t, r) /\ t_id t <> TOp OpBar.
 Proof.
-  intros [[->|[->|[[x ->]|[x ->]]]]|[[x ->]|[x ->]]] Hf.
+  intros [[->|[->|[[x ->]|[[x ->]|[[x ->]|[x ->]]]]]]|[[x ->]|[x ->]]] Hf.
   - rewrite tok_end by exact Hf. eexists _, _. split; [reflexivity | discriminate].
   - rewrite tok_and_end. eexists _, _. split; [reflexivity | discriminate].
   - rewrite tok_semicolon. eexists _, _. split; [reflexivity | discriminate].
   - rewrite tok_and_blank. eexists _, _. split; [reflexivity | discriminate].
+  - rewrite tok_rparen. eexists _, _. split; [reflexivity | discriminate].
+  - rewrite tok_and_rparen. eexists _, _. split; [reflexivity | discriminate].
   - rewrite tok_andand. eexists _, _. split; [reflexivity | discriminate].
   - rewrite tok_barbar. eexists _, _. split; [reflexivity | discriminate].
 Qed.
@@ -212,25 +362,6 @@ Proof.
   right. unfold pipe_tail. cbn [cat_map app]. rewrite <- !app_assoc. eauto.
 Qed.
 
-Lemma pipe_rest_replay cs : Forall cmd_good cs -> forall z, zp z ->
-  exists f0, forall f, (f0 <= f)%nat -> p_pipe_rest f (pipe_tail cs ++ z) = Ok (cs, z).
-Proof.
-  induction 1 as [|c cs Hc _ IH]; intros z Hz.
-  - exists 3%nat. intros f Hf. destruct f as [|f]; [lia|]. rewrite p_pipe_rest_eq. cbv zeta. unfold bind.
-    cbn [pipe_tail cat_map app].
-    destruct (zp_token z f Hz ltac:(lia)) as (t & r & Et & Hid). rewrite Et.
-    destruct (t_id t) as [|op| | |]; try reflexivity. destruct op; try reflexivity. congruence.
-  - destruct (IH z Hz) as [f1 H1].
-    pose proof (pipe_tail_zc cs z Hz) as Hzc. destruct (zc_follow _ Hzc) as [Hfo Hce].
-    destruct (command_replay c (pipe_tail cs ++ z) [32] Hc Hfo Hce (or_intror eq_refl)) as [f2 H2].
-    exists (S (S (max f1 f2))). intros f Hf. destruct f as [|f]; [lia|].
-    rewrite p_pipe_rest_eq. cbv zeta. unfold bind.
-    unfold pipe_tail at 1. cbn [cat_map]. fold (pipe_tail cs). rewrite <- !app_assoc. cbn [app].
-    rewrite tok_bar. cbn [t_id].
-    destruct (H2 f ltac:(lia)) as [Hcmd Hsk]. cbn [app] in Hcmd, Hsk.
-    destruct f as [|f']; [lia|]. rewrite (Hsk f'). rewrite Hcmd. rewrite (H1 (S f') ltac:(lia)). reflexivity.
-Qed.
-
 Lemma print_pipeline_cons c cs neg :
   print_pipeline (Pipeline (c :: cs) neg)
   = (if neg then [33; 32] else []) ++ print_command c ++ pipe_tail cs.
@@ -238,38 +369,6 @@ Proof.
   cbn [print_pipeline]. change (kw " | ") with [32; 124; 32]. change (kw "! ") with [33; 32].
   rewrite join_map_cons. reflexivity.
 Qed.
-
-Lemma pipeline_replay c cs neg z pre :
-  Forall cmd_good (c :: cs) -> zp z -> is_lead pre ->
-  exists f0, forall f, (f0 <= f)%nat ->
-    p_pipeline f (pre ++ print_pipeline (Pipeline (c :: cs) neg) ++ z) = Ok (Some (Pipeline (c :: cs) neg), z) /\
-    forall k, skip_newlines (tk2 f) (S k) (pre ++ print_pipeline (Pipeline (c :: cs) neg) ++ z)
-              = Ok (pre ++ print_pipeline (Pipeline (c :: cs) neg) ++ z).
-Proof.
-  intros Hg Hz Hl. pose proof (Forall_inv Hg) as Hc. pose proof (Forall_inv_tail Hg) as Hcs.
-  destruct (pipe_rest_replay cs Hcs z Hz) as [f1 H1].
-  pose proof (pipe_tail_zc cs z Hz) as Hzc. destruct (zc_follow _ Hzc) as [Hfo Hce].
-  rewrite print_pipeline_cons. destruct neg.
-  - destruct (command_replay c (pipe_tail cs ++ z) [32] Hc Hfo Hce (or_intror eq_refl)) as [f2 H2].
-    exists (S (max (max f1 f2) 8)). intros f Hf. rewrite <- !app_assoc. cbn [app].
-    split.
-    + destruct f as [|f]; [lia|]. rewrite p_pipeline_eq. cbv zeta. unfold bind.
-      rewrite (bang_no_command f _ pre Hl ltac:(lia)).
-      rewrite (tok_bang _ f _ pre Hl ltac:(lia)). cbn [t_id].
-      destruct (H2 f ltac:(lia)) as [Hcmd _]. cbn [app] in Hcmd. rewrite Hcmd.
-      rewrite (H1 f ltac:(lia)). reflexivity.
-    + intros k. eapply skip_newlines_none; [apply (tok_bang _ f _ pre Hl); lia | discriminate].
-  - destruct (command_replay c (pipe_tail cs ++ z) pre Hc Hfo Hce Hl) as [f2 H2].
-    exists (S (max f1 f2)). intros f Hf. cbn [app]. rewrite <- !app_assoc.
-    split.
-    + destruct f as [|f]; [lia|]. rewrite p_pipeline_eq. cbv zeta. unfold bind.
-      destruct (H2 f ltac:(lia)) as [Hcmd _]. rewrite Hcmd. rewrite (H1 f ltac:(lia)). reflexivity.
-    + destruct (H2 f ltac:(lia)) as [_ Hsk]. exact Hsk.
-Qed.
-
-(* ---- and-or lists ---- *)
-Definition good_pl (p : pipeline) : Prop :=
-  match p with Pipeline cs _ => cs <> [] /\ Forall cmd_good cs end.
 
 Definition ao_tail (rest : list (and_or * pipeline)) : str :=
   cat_map (fun x => [32] ++ print_andor (fst x) ++ [32] ++ print_pipeline (snd x)) rest.
@@ -283,15 +382,73 @@ Qed.
 Lemma za_token z f : za z -> (2 <= f)%nat ->
   exists t r, tk2 f z = Ok (t, r) /\ t_id t <> TOp OpAndAnd /\ t_id t <> TOp OpBarBar.
 Proof.
-  intros [->|[->|[[x ->]|[x ->]]]] Hf.
+  intros [->|[->|[[x ->]|[[x ->]|[[x ->]|[x ->]]]]]] Hf.
   - rewrite tok_end by exact Hf. eexists _, _. split; [reflexivity | split; discriminate].
   - rewrite tok_and_end. eexists _, _. split; [reflexivity | split; discriminate].
   - rewrite tok_semicolon. eexists _, _. split; [reflexivity | split; discriminate].
   - rewrite tok_and_blank. eexists _, _. split; [reflexivity | split; discriminate].
+  - rewrite tok_rparen. eexists _, _. split; [reflexivity | split; discriminate].
+  - rewrite tok_and_rparen. eexists _, _. split; [reflexivity | split; discriminate].
+Qed.
+
+Lemma p_list_nil f : (12 <= f)%nat -> p_list f [] = Ok ([], []).
+Proof.
+  intros Hf. apply (gm_list 12 (parser_mono 12) f [] _ Hf); [vm_compute; reflexivity | discriminate].
+Qed.
+
+Section Generic.
+  Variable P : command -> Prop.
+  Hypothesis P_replay : replays P.
+
+Lemma pipe_rest_replay cs : Forall P cs -> forall z, zp z ->
+  exists f0, forall f, (f0 <= f)%nat -> p_pipe_rest f (pipe_tail cs ++ z) = Ok (cs, z).
+Proof.
+  induction 1 as [|c cs Hc _ IH]; intros z Hz.
+  - exists 3%nat. intros f Hf. destruct f as [|f]; [lia|]. rewrite p_pipe_rest_eq. cbv zeta. unfold bind.
+    cbn [pipe_tail cat_map app].
+    destruct (zp_token z f Hz ltac:(lia)) as (t & r & Et & Hid). rewrite Et.
+    destruct (t_id t) as [|op| | |]; try reflexivity. destruct op; try reflexivity. congruence.
+  - destruct (IH z Hz) as [f1 H1].
+    pose proof (pipe_tail_zc cs z Hz) as Hzc. destruct (zc_follow _ Hzc) as [Hfo Hce].
+    destruct (P_replay c (pipe_tail cs ++ z) [32] Hc Hfo Hce (or_intror eq_refl)) as [f2 H2].
+    exists (S (S (max f1 f2))). intros f Hf. destruct f as [|f]; [lia|].
+    rewrite p_pipe_rest_eq. cbv zeta. unfold bind.
+    unfold pipe_tail at 1. cbn [cat_map]. fold (pipe_tail cs). rewrite <- !app_assoc. cbn [app].
+    rewrite tok_bar. cbn [t_id].
+    destruct (H2 f ltac:(lia)) as [Hcmd Hsk]. cbn [app] in Hcmd, Hsk.
+    destruct f as [|f']; [lia|]. rewrite (Hsk f'). rewrite Hcmd. rewrite (H1 (S f') ltac:(lia)). reflexivity.
+Qed.
+
+Lemma pipeline_replay c cs neg z pre :
+  Forall P (c :: cs) -> zp z -> is_lead pre ->
+  exists f0, forall f, (f0 <= f)%nat ->
+    p_pipeline f (pre ++ print_pipeline (Pipeline (c :: cs) neg) ++ z) = Ok (Some (Pipeline (c :: cs) neg), z) /\
+    forall k, skip_newlines (tk2 f) (S k) (pre ++ print_pipeline (Pipeline (c :: cs) neg) ++ z)
+              = Ok (pre ++ print_pipeline (Pipeline (c :: cs) neg) ++ z).
+Proof.
+  intros Hg Hz Hl. pose proof (Forall_inv Hg) as Hc. pose proof (Forall_inv_tail Hg) as Hcs.
+  destruct (pipe_rest_replay cs Hcs z Hz) as [f1 H1].
+  pose proof (pipe_tail_zc cs z Hz) as Hzc. destruct (zc_follow _ Hzc) as [Hfo Hce].
+  rewrite print_pipeline_cons. destruct neg.
+  - destruct (P_replay c (pipe_tail cs ++ z) [32] Hc Hfo Hce (or_intror eq_refl)) as [f2 H2].
+    exists (S (max (max f1 f2) 8)). intros f Hf. rewrite <- !app_assoc. cbn [app].
+    split.
+    + destruct f as [|f]; [lia|]. rewrite p_pipeline_eq. cbv zeta. unfold bind.
+      rewrite (bang_no_command f _ pre Hl ltac:(lia)).
+      rewrite (tok_bang _ f _ pre Hl ltac:(lia)). cbn [t_id].
+      destruct (H2 f ltac:(lia)) as [Hcmd _]. cbn [app] in Hcmd. rewrite Hcmd.
+      rewrite (H1 f ltac:(lia)). reflexivity.
+    + intros k. eapply skip_newlines_none; [apply (tok_bang _ f _ pre Hl); lia | discriminate].
+  - destruct (P_replay c (pipe_tail cs ++ z) pre Hc Hfo Hce Hl) as [f2 H2].
+    exists (S (max f1 f2)). intros f Hf. cbn [app]. rewrite <- !app_assoc.
+    split.
+    + destruct f as [|f]; [lia|]. rewrite p_pipeline_eq. cbv zeta. unfold bind.
+      destruct (H2 f ltac:(lia)) as [Hcmd _]. rewrite Hcmd. rewrite (H1 f ltac:(lia)). reflexivity.
+    + destruct (H2 f ltac:(lia)) as [_ Hsk]. exact Hsk.
 Qed.
 
 Lemma pipeline_replay' p z pre :
-  good_pl p -> zp z -> is_lead pre ->
+  gpl P p -> zp z -> is_lead pre ->
   exists f0, forall f, (f0 <= f)%nat ->
     p_pipeline f (pre ++ print_pipeline p ++ z) = Ok (Some p, z) /\
     forall k, skip_newlines (tk2 f) (S k) (pre ++ print_pipeline p ++ z) = Ok (pre ++ print_pipeline p ++ z).
@@ -300,7 +457,7 @@ Proof.
   apply pipeline_replay; assumption.
 Qed.
 
-Lemma and_or_rest_replay rest : Forall (fun x => good_pl (snd x)) rest -> forall z, za z ->
+Lemma and_or_rest_replay rest : Forall (fun x => gpl P (snd x)) rest -> forall z, za z ->
   exists f0, forall f, (f0 <= f)%nat -> p_and_or_rest f (ao_tail rest ++ z) = Ok (rest, z).
 Proof.
   induction 1 as [|[a p] rest Hp _ IH]; intros z Hz.
@@ -319,11 +476,8 @@ Proof.
       rewrite (Hsk f'), Hpl, (H1 (S f') ltac:(lia)); reflexivity.
 Qed.
 
-Definition good_ao (ao : and_or_list) : Prop :=
-  match ao with AndOrList p rest => good_pl p /\ Forall (fun x => good_pl (snd x)) rest end.
-
 Lemma and_or_replay ao z pre :
-  good_ao ao -> za z -> is_lead pre ->
+  gao P ao -> za z -> is_lead pre ->
   exists f0, forall f, (f0 <= f)%nat ->
     p_and_or f (pre ++ print_and_or_list ao ++ z) = Ok (Some ao, z).
 Proof.
@@ -336,130 +490,155 @@ Proof.
   destruct (H2 f ltac:(lia)) as [Hpl _]. rewrite Hpl. rewrite (H1 f ltac:(lia)). reflexivity.
 Qed.
 
-(* ---- lists ---- *)
-Definition good_item (i : item) : Prop := match i with Item ao _ => good_ao ao end.
-
-Lemma p_list_nil f : (12 <= f)%nat -> p_list f [] = Ok ([], []).
+(* ---- lists, in both printed forms and in front of every list terminator ---- *)
+Lemma list_replay l : Forall (gitem P) l -> forall pre, is_lead pre -> l <> [] ->
+  forall alt zt, zl alt zt ->
+  exists f0, forall f, (f0 <= f)%nat -> p_list f (pre ++ print_list alt l ++ zt) = Ok (l, zt).
 Proof.
-  intros Hf. apply (gm_list 12 (parser_mono 12) f [] _ Hf); [vm_compute; reflexivity | discriminate].
-Qed.
-
-Lemma list_replay l : Forall good_item l -> forall pre, is_lead pre -> l <> [] ->
-  exists f0, forall f, (f0 <= f)%nat -> p_list f (pre ++ print_list false l) = Ok (l, []).
-Proof.
-  induction 1 as [|[ao async] l Hi Hl IH]; intros pre Hpre Hne; [congruence|].
-  cbn [good_item] in Hi. destruct l as [|i2 l'].
+  induction 1 as [|[ao async] l Hi Hl IH]; intros pre Hpre Hne alt zt Hzt; [congruence|].
+  cbn [gitem] in Hi. destruct l as [|i2 l'].
   - (* the last item *)
     unfold print_list. cbn [print_list_with print_item].
+    destruct alt.
+    + destruct Hzt as (k & cs & x & -> & Hk & Hn & Hs).
+      assert (Hnil : forall f, (16 <= f)%nat -> p_list f (32 :: cs ++ x) = Ok ([], 32 :: cs ++ x)).
+      { apply (closer_no_list _ (wlits cs) (TToken (Some k)) (cs ++ x) x).
+        - intros f Hf. apply (tok_closer _ f k cs x [32] Hk (or_intror eq_refl) Hn Hs). lia.
+        - right. exists k. split; [reflexivity|].
+          destruct Hk as [[-> _]|[[-> _]|[-> _]]]; auto. }
+      destruct async.
+      * destruct (and_or_replay ao (38 :: 32 :: cs ++ x) pre Hi
+                    ltac:(right; right; right; left; eauto) Hpre) as [f1 H1].
+        exists (S (max f1 16)). intros f Hf. destruct f as [|f]; [lia|].
+        rewrite p_list_eq. cbv zeta. unfold bind. rewrite <- !app_assoc. cbn [app].
+        rewrite (H1 f ltac:(lia)). rewrite tok_and_blank. cbn [t_id].
+        rewrite (Hnil f ltac:(lia)). reflexivity.
+      * destruct (and_or_replay ao (59 :: 32 :: cs ++ x) pre Hi
+                    ltac:(right; right; left; eauto) Hpre) as [f1 H1].
+        exists (S (max f1 16)). intros f Hf. destruct f as [|f]; [lia|].
+        rewrite p_list_eq. cbv zeta. unfold bind. rewrite <- !app_assoc. cbn [app].
+        rewrite (H1 f ltac:(lia)). rewrite tok_semicolon. cbn [t_id].
+        rewrite (Hnil f ltac:(lia)). reflexivity.
+    + destruct Hzt as [-> | [x ->]].
+      * destruct async.
+        -- destruct (and_or_replay ao [38] pre Hi ltac:(right; left; reflexivity) Hpre) as [f1 H1].
+           exists (S (max f1 16)). intros f Hf. destruct f as [|f]; [lia|].
+           rewrite p_list_eq. cbv zeta. unfold bind. rewrite <- !app_assoc. cbn [app].
+           rewrite (H1 f ltac:(lia)).
+           rewrite tok_and_end. cbn [t_id]. rewrite (p_list_nil f ltac:(lia)). reflexivity.
+        -- destruct (and_or_replay ao [] pre Hi ltac:(left; reflexivity) Hpre) as [f1 H1].
+           exists (S (max f1 2)). intros f Hf. destruct f as [|f]; [lia|].
+           rewrite p_list_eq. cbv zeta. unfold bind. rewrite <- !app_assoc. cbn [app].
+           rewrite (H1 f ltac:(lia)).
+           rewrite (tok_end _ f ltac:(lia)). reflexivity.
+      * assert (Hnil : forall f, (16 <= f)%nat -> p_list f (41 :: x) = Ok ([], 41 :: x)).
+        { apply (closer_no_list _ [] (TOp OpCloseParen) (41 :: x) x).
+          - intros f Hf. apply tok_rparen.
+          - left; reflexivity. }
+        destruct async.
+        -- destruct (and_or_replay ao (38 :: 41 :: x) pre Hi ltac:(do 5 right; eauto) Hpre) as [f1 H1].
+           exists (S (max f1 16)). intros f Hf. destruct f as [|f]; [lia|].
+           rewrite p_list_eq. cbv zeta. unfold bind. rewrite <- !app_assoc. cbn [app].
+           rewrite (H1 f ltac:(lia)). rewrite tok_and_rparen. cbn [t_id].
+           rewrite (Hnil f ltac:(lia)). reflexivity.
+        -- destruct (and_or_replay ao (41 :: x) pre Hi ltac:(do 4 right; left; eauto) Hpre) as [f1 H1].
+           exists (S (max f1 2)). intros f Hf. destruct f as [|f]; [lia|].
+           rewrite p_list_eq. cbv zeta. unfold bind. rewrite <- !app_assoc. cbn [app].
+           rewrite (H1 f ltac:(lia)). rewrite tok_rparen. reflexivity.
+  - destruct (IH [32] (or_intror eq_refl) ltac:(discriminate) alt zt Hzt) as [f2 H2].
+    unfold print_list in *.
+    change (print_list_with print_item alt (Item ao async :: i2 :: l'))
+      with (print_item true (Item ao async) ++ [32] ++ print_list_with print_item alt (i2 :: l')).
+    cbn [print_item]. set (rest := print_list_with print_item alt (i2 :: l')) in *.
     destruct async.
-    + destruct (and_or_replay ao [38] pre Hi ltac:(right; left; reflexivity) Hpre) as [f1 H1].
-      exists (S (max f1 12)). intros f Hf. destruct f as [|f]; [lia|].
-      rewrite p_list_eq. cbv zeta. unfold bind. rewrite (H1 f ltac:(lia)).
-      rewrite tok_and_end. cbn [t_id]. rewrite (p_list_nil f ltac:(lia)). reflexivity.
-    + destruct (and_or_replay ao [] pre Hi ltac:(left; reflexivity) Hpre) as [f1 H1].
-      exists (S (max f1 2)). intros f Hf. destruct f as [|f]; [lia|].
-      rewrite p_list_eq. cbv zeta. unfold bind. rewrite (H1 f ltac:(lia)).
-      rewrite (tok_end _ f ltac:(lia)). reflexivity.
-  - destruct (IH [32] (or_intror eq_refl) ltac:(discriminate)) as [f2 H2].
-    unfold print_list in *. 
-    change (print_list_with print_item false (Item ao async :: i2 :: l'))
-      with (print_item true (Item ao async) ++ [32] ++ print_list_with print_item false (i2 :: l')).
-    cbn [print_item]. set (rest := print_list_with print_item false (i2 :: l')) in *.
-    destruct async.
-    + destruct (and_or_replay ao (38 :: 32 :: rest) pre Hi ltac:(right; right; right; eauto) Hpre) as [f1 H1].
+    + destruct (and_or_replay ao (38 :: 32 :: rest ++ zt) pre Hi
+                  ltac:(right; right; right; left; eauto) Hpre) as [f1 H1].
       exists (S (max f1 f2)). intros f Hf. destruct f as [|f]; [lia|].
       rewrite p_list_eq. cbv zeta. unfold bind. rewrite <- !app_assoc. cbn [app].
       rewrite (H1 f ltac:(lia)). rewrite tok_and_blank. cbn [t_id].
       pose proof (H2 f ltac:(lia)) as X. cbn [app] in X. rewrite X. reflexivity.
-    + destruct (and_or_replay ao (59 :: 32 :: rest) pre Hi ltac:(right; right; left; eauto) Hpre) as [f1 H1].
+    + destruct (and_or_replay ao (59 :: 32 :: rest ++ zt) pre Hi
+                  ltac:(right; right; left; eauto) Hpre) as [f1 H1].
       exists (S (max f1 f2)). intros f Hf. destruct f as [|f]; [lia|].
       rewrite p_list_eq. cbv zeta. unfold bind. rewrite <- !app_assoc. cbn [app].
       rewrite (H1 f ltac:(lia)). rewrite tok_semicolon. cbn [t_id].
       pose proof (H2 f ltac:(lia)) as X. cbn [app] in X. rewrite X. reflexivity.
 Qed.
 
+(* list.rs maybe_compound_list: the list up to its terminator *)
+Lemma mcl_replay l : Forall (gitem P) l -> l <> [] -> forall pre alt zt, is_lead pre -> zl alt zt ->
+  exists f0, forall f, (f0 <= f)%nat -> p_mcl f (pre ++ print_list alt l ++ zt) = Ok (l, zt).
+Proof.
+  intros Hg Hne pre alt zt Hpre Hzt.
+  destruct (list_replay l Hg pre Hpre Hne alt zt Hzt) as [f0 H0].
+  exists (S (max f0 8)). intros f Hf. destruct f as [|f]; [lia|].
+  rewrite p_mcl_eq. cbv zeta. unfold bind. rewrite (H0 f ltac:(lia)).
+  destruct alt.
+  - destruct Hzt as (k & cs & x & -> & Hk & Hn & Hs).
+    rewrite (tok_closer _ f k cs x [32] Hk (or_intror eq_refl) Hn Hs ltac:(lia)).
+    destruct Hk as [[-> _]|[[-> _]|[-> _]]]; reflexivity.
+  - destruct Hzt as [-> | [x ->]].
+    + rewrite (tok_end _ f ltac:(lia)). reflexivity.
+    + rewrite tok_rparen. reflexivity.
+Qed.
+
 (* ---- the whole text ---- *)
-Lemma program_replay l : Forall good_item l -> parse_program (print_list false l) = Ok l.
+Lemma program_replay l : Forall (gitem P) l -> parse_program (print_list false l) = Ok l.
 Proof.
   intros Hg. destruct l as [|i l'] eqn:El; [vm_compute; reflexivity|]. rewrite <- El in *.
-  destruct (list_replay l Hg [] (or_introl eq_refl) ltac:(subst; discriminate)) as [f0 H0].
-  cbn [app] in H0. set (txt := print_list false l) in *.
-  assert (Hm : p_mcl (S (max f0 2)) txt = Ok (l, [])).
-  { rewrite p_mcl_eq. cbv zeta. unfold bind. rewrite (H0 (max f0 2) ltac:(lia)).
-    rewrite (tok_end _ (max f0 2) ltac:(lia)). reflexivity. }
+  destruct (mcl_replay l Hg ltac:(subst; discriminate) [] false [] (or_introl eq_refl) (or_introl eq_refl))
+    as [f0 H0].
+  cbn [app] in H0. rewrite app_nil_r in H0. set (txt := print_list false l) in *.
+  pose proof (H0 f0 (le_n _)) as Hm.
   unfold parse_program, bind.
-  rewrite <- (parse_more_fuel_lemma txt (max (parse_fuel txt) (S (max f0 2))) ltac:(lia)).
-  rewrite (gm_mcl (S (max f0 2)) (parser_mono (S (max f0 2))) (max (parse_fuel txt) (S (max f0 2))) txt _ ltac:(lia) Hm ltac:(discriminate)).
+  rewrite <- (parse_more_fuel_lemma txt (max (parse_fuel txt) f0) ltac:(lia)).
+  rewrite (gm_mcl f0 (parser_mono f0) (max (parse_fuel txt) f0) txt _ ltac:(lia) Hm ltac:(discriminate)).
   reflexivity.
 Qed.
 
-(* ---- what the first run tells: every simple command was read by simple_command.rs ---- *)
-Definition run_pl (p : pipeline) : Prop :=
-  match p with Pipeline cs _ => cs <> [] /\ Forall cmd_first cs end.
-Definition run_ao (ao : and_or_list) : Prop :=
-  match ao with AndOrList p rest => run_pl p /\ Forall (fun x => run_pl (snd x)) rest end.
-Definition run_item (i : item) : Prop := match i with Item ao _ => run_ao ao end.
+End Generic.
 
+(* ---- what the first run tells about the commands of a tree: a fact [P] that
+   holds of every command returned by command.rs holds of all commands of the
+   lists returned by the list-level parsers ---- *)
 Lemma command_first f s c r : p_command f s = Ok (Some c, r) -> cmd_first c.
 Proof.
   destruct c as [a w rds| |]; try (intros; exact I).
   intros H. destruct (command_simple _ _ _ _ _ _ H) as [f0 H0]. cbn. eauto.
 Qed.
 
-Record Extract (f : nat) : Prop := {
-  ex_pipe_rest : forall s cs r, p_pipe_rest f s = Ok (cs, r) -> Forall cmd_first cs;
-  ex_pipeline : forall s p r, p_pipeline f s = Ok (Some p, r) -> run_pl p;
-  ex_and_or_rest : forall s rest r, p_and_or_rest f s = Ok (rest, r) -> Forall (fun x => run_pl (snd x)) rest;
-  ex_and_or : forall s ao r, p_and_or f s = Ok (Some ao, r) -> run_ao ao;
-  ex_list : forall s l r, p_list f s = Ok (l, r) -> Forall run_item l;
-  ex_mcl : forall s l r, p_mcl f s = Ok (l, r) -> Forall run_item l
+Record Extract (P : command -> Prop) (f : nat) : Prop := {
+  ex_command : forall s c r, p_command f s = Ok (Some c, r) -> P c;
+  ex_pipe_rest : forall s cs r, p_pipe_rest f s = Ok (cs, r) -> Forall P cs;
+  ex_pipeline : forall s p r, p_pipeline f s = Ok (Some p, r) -> gpl P p;
+  ex_and_or_rest : forall s rest r, p_and_or_rest f s = Ok (rest, r) -> Forall (fun x => gpl P (snd x)) rest;
+  ex_and_or : forall s ao r, p_and_or f s = Ok (Some ao, r) -> gao P ao;
+  ex_list : forall s l r, p_list f s = Ok (l, r) -> Forall (gitem P) l;
+  ex_mcl : forall s l r, p_mcl f s = Ok (l, r) -> Forall (gitem P) l
 }.
 
-Lemma extract : forall f, Extract f.
+Lemma extract_zero P : Extract P O.
+Proof. constructor; intros; discriminate. Qed.
+
+Lemma extract_step P f :
+  Extract P f -> (forall s c r, p_command (S f) s = Ok (Some c, r) -> P c) -> Extract P (S f).
 Proof.
-  induction f as [|f IH]; [constructor; intros; discriminate|].
-  destruct IH as [I1 I2 I3 I4 I5 I6]. constructor.
+  intros [I0 I1 I2 I3 I4 I5 I6] HC. constructor.
+  - exact HC.
   - intros s cs r. rewrite p_pipe_rest_eq. cbv zeta. unfold bind. intros H.
-    repeat (dmh H; try discriminate); inv H; try constructor; eauto using command_first.
+    repeat (dmh H; try discriminate); inv H; try constructor; eauto.
   - intros s p r. rewrite p_pipeline_eq. cbv zeta. unfold bind. intros H.
     repeat (dmh H; try discriminate); inv H; cbn; (split; [discriminate|]); constructor; eauto;
       repeat match goal with
              | X : match ?a with _ => _ end = _ |- _ => destruct a eqn:?; try discriminate
              end;
-      repeat match goal with X : Ok _ = Ok _ |- _ => inv X end; eauto using command_first.
+      repeat match goal with X : Ok _ = Ok _ |- _ => inv X end; eauto.
   - intros s rest r. rewrite p_and_or_rest_eq. cbv zeta. unfold bind. intros H.
     repeat (dmh H; try discriminate); inv H; try constructor; cbn [snd]; eauto.
   - intros s ao r. rewrite p_and_or_eq. cbv zeta. unfold bind. intros H.
     repeat (dmh H; try discriminate); inv H. cbn. split; eauto.
   - intros s l r. rewrite p_list_eq. cbv zeta. unfold bind. intros H.
-    repeat (dmh H; try discriminate); inv H; try constructor; cbn [run_item]; eauto.
+    repeat (dmh H; try discriminate); inv H; try constructor; cbn [gitem]; eauto.
   - intros s l r. rewrite p_mcl_eq. cbv zeta. unfold bind. intros H.
     repeat (dmh H; try discriminate); inv H; try apply Forall_app; eauto.
-Qed.
-
-(* ---- the round trip of lists of simple commands ---- *)
-Lemma good_cmds cs : Forall cmd_first cs -> Forall clean_command cs -> Forall cmd_good cs.
-Proof.
-  rewrite !Forall_forall. intros A B c Hc. split; [apply A; exact Hc|].
-  specialize (B c Hc). destruct c; exact B.
-Qed.
-
-Lemma good_pl_of p : run_pl p -> clean_pipeline p -> good_pl p.
-Proof. destruct p as [cs neg]. intros [A B] C. split; [exact A | apply good_cmds; assumption]. Qed.
-
-Lemma good_item_of i : run_item i -> (match i with Item ao _ => clean_and_or ao end) -> good_item i.
-Proof.
-  destruct i as [[p rest] async]. intros [A B] [C D]. split; [apply good_pl_of; assumption|].
-  rewrite Forall_forall in *. intros x Hx. apply good_pl_of; [apply B | apply D]; exact Hx.
-Qed.
-
-Theorem parse_print_simple_lists_lemma : forall s l,
-  parse_program s = Ok l -> clean_list l -> parse_program (print_list false l) = Ok l.
-Proof.
-  intros s l H Hc. apply program_replay.
-  unfold parse_program, bind in H.
-  destruct (p_mcl (parse_fuel s) s) as [[l0 r]| | | |] eqn:E; try discriminate. inv H.
-  pose proof (ex_mcl _ (extract _) _ _ _ E) as Hr.
-  unfold clean_list in Hc. rewrite Forall_forall in *. intros i Hi.
-  apply good_item_of; [apply Hr | apply Hc]; exact Hi.
 Qed.
